@@ -1006,6 +1006,17 @@ def _(d):
         _with_ax(lambda ax, x: (putils.qqplot(ax, x), None)[1])
 
 
+@spec("putils.qqplot_censor", "plot")
+def _(d):
+    # the censor threshold inside the data (values below it exist), the OLS
+    # line requested, data with and without missing values
+    cens = float(np.median(d.obs))
+    return [d.V(d.obs, containers=("ndarray", "series"), dtypes=FL,
+                inject=False)], \
+        _with_ax(lambda ax, x: list(putils.qqplot(
+            ax, x, addline=True, censor=cens)))
+
+
 @spec("putils.cov_ellipse", "plot")
 def _(d):
     cov = np.cov(np.column_stack([d.obs, d.sim]).T) + np.eye(2)
